@@ -24,6 +24,16 @@ HOSTILE = [
 ]
 
 
+# derived-only variables whose value is NaN although everything they depend on converged to finite values
+NAN_DERIVED = [
+    ('y = 0.5*y + 1\nshare = (1e308*y*10)/(1e308*y*20)\nMaxTime = 3', 'inf/inf in a derived-only variable', False),
+    ('y = 0.5*y + 1\nd = 1e308*y*10 - 1e308*y*10\nw = 0.5*w + y\nMaxTime = 3', 'inf - inf in a derived-only variable', False),
+    ('y = 0.5*y + 1\nd = 0*(1e308*y*10)\nMaxTime = 2', '0*inf in a derived-only variable', False),
+    ('x = 0.5*y + 1\ny = 0.25*x + 1\nz = myfn(x)\nMaxTime = 3', 'a user function returning NaN feeds a derived-only variable', True),
+    ('x = 0.5*y + 1\ny = 0.25*x + 1\nz = myfn(x)\nzz = z\nMaxTime = 3', 'NaN from a user function behind an alias', True),
+]
+
+
 def fp_inf_after(n):
     state = {'n': 0}
 
@@ -68,7 +78,8 @@ class C02(object):
                          'model_level.judged', 'rival_user_function.cases', 'solver_reused_for_variant.cases',
                          'solver_reused_after_coarser_block.cases', 'route.constructor', 'route.manual_steps',
                          'zero_tolerance_requested.cases',
-                         'retry_after_failed_solve.cases')
+                         'retry_after_failed_solve.cases',
+                         'hostile.derived_only_nan.cases')
 
     def n_cases(self, tier):
         return 400 if tier == 'quick' else 40000
@@ -78,6 +89,10 @@ class C02(object):
             from vf.gen import modelspec as M
             return {'kind': 'model', 'spec': M.gen_spec(rng, n_zones=rng.choice([1, 2]), maxtime=rng.randint(2, 4)),
                     'reduction': True}
+        if idx % 20 == 6:
+            h = (idx // 20) % len(NAN_DERIVED)
+            return {'kind': 'hostile', 'block': NAN_DERIVED[h][0], 'why': NAN_DERIVED[h][1], 'fn_nan': NAN_DERIVED[h][2],
+                    'nan_derived': True, 'reduction': True, 'cap': 400, 'tol': None}
         if idx % 20 == 13:
             # a job that FAILS at a later period (too few sweeps for the shock), after which the caller gives the same solver
             # object more sweeps and solves again: what it then returns is judged like any other normal return
@@ -191,6 +206,10 @@ class C02(object):
             text = case['text']
         elif kind == 'hostile':
             text = case['block']
+            if case.get('fn_nan'):
+                funcs['myfn'] = fp_nan
+            if case.get('nan_derived'):
+                counters['hostile.derived_only_nan.cases'] = 1
         elif kind == 'userfn':
             text = 'x = 0.5*y + myfn(x)\ny = 0.25*x + 1\nz = x + y\nMaxTime = 3\nErr_Tolerance=1e-6'
             funcs['myfn'] = fp_inf_after(case['n']) if case['fn'] == 'inf_after' else fp_nan
